@@ -50,7 +50,7 @@ class C15(F.PropCheck):
     pid = 'C15'; gen_groups = ['HtmlTemplates', 'C14Vars']; prop_file = 'Properties_C15'
     IN = {'CFG': 0, 'CFGB': 1, 'NAME': 2, 'MAC': 3, 'ADD': 4, 'STATE': 5, 'RENDER': 6, 'GET': 7, 'FORMB': 8, 'FORM': 9}
     OUT = {0: 'PAGE', 1: 'PAGEB', 2: 'GETPAGE', 3: 'FPAGE', 4: 'FPAGEB', 5: 'FCFG', 6: 'FCFGB'}
-    quick_cases = 2000; thorough_cases = 4000
+    quick_cases = 1500; thorough_cases = 4000
     trusted_extra = ['C15 driver harness/drv/c15.c + harness/wrap/c15_html_wrap.c: the two html sources of /repo compiled under all '
                      'seven variants in one MQTT-configuration binary (SUPLA page with MQTT_SUPPORT_ENABLED undefined, renamed entry points), '
                      'malloc/ets_snprintf of the renderers observed through macros; real supla_esp_http_ok, supla_esp_set_state, '
